@@ -315,10 +315,27 @@ def runJudge (body : List String) : List String :=
   | [] => ["ok"]
   | vs => vs.map (fun v => s!"bad {v}")
 
+/-- names of the machine branches recorded by `mark` (Model.lean) -/
+def branchNames : List (Nat × String) :=
+  [(1, "tick-expires"), (2, "frame-push-at-full-depth"), (3, "checked-push-at-full-stack"), (4, "catch-at-full-depth"),
+   (5, "catch-reraises-cost"), (6, "catch-reraises-stack-or-depth"), (7, "catch-returns-error-value"),
+   (8, "safe-apply-at-full-depth"), (9, "safe-apply-stops-cost-error"), (10, "safe-apply-stops-other-error"),
+   (11, "throw-to-catch"), (12, "throw-without-catch"), (13, "catch-without-error"), (14, "safe-apply-without-error")]
+
+/-- `cover` mode: the branches of the machine each case takes (generator audit; not part of the check's verdict) -/
+def runCover (lines : List String) : List String :=
+  let p := lines.foldl (parseLine false) {}
+  if (lines.any fun l => (toks l).take 3 == ["ev", "p", "main"]) then
+    let (_, s) := evaluate (cfgOf p.lim) modelFuel p.shape
+    let ids := s.br.eraseDups
+    ids.map fun i => "br " ++ ((branchNames.find? (·.1 == i)).map (·.2)).getD (toString i)
+  else []
+
 def main (mode : String) : IO Unit :=
   match mode with
   | "model" => serve runModel
   | "judge" => serve runJudge
+  | "cover" => serve runCover
   | _ => IO.eprintln s!"C04: unknown mode {mode}"
 
 end NV.C04
